@@ -26,7 +26,7 @@ def runs(tier, seed):
         # DESIGN asked for 50 k sequences; scaled down so that the tier stays within ~15 min on an idle 16-core box (in-tree CheckAddrman after
         # every call costs ~5-30 ms under ASan, depending on the table size)
         return [Run("addrman", cases=1600, params={"ops": 400}, timeout=3600)]
-    return [Run("addrman", cases=240, params={"ops": 250}, timeout=1200)]
+    return [Run("addrman", cases=96, params={"ops": 250}, timeout=2400)]  # a case costs 20-60 CPU s under ASan (CheckAddrman after every call on ~1000-entry tables)
 
 
 def _check_raw(raw, st, case, where):
